@@ -52,7 +52,12 @@ def strategy(tier):
     during = st.lists(st.one_of(
         st.fixed_dictionaries({'a': st.just('ack_right'), 'args': args}),
         st.fixed_dictionaries({'a': st.just('ack_wrong'), 'args': args}),
-        st.fixed_dictionaries({'a': st.just('ack_otherns'), 'args': args})),
+        st.fixed_dictionaries({'a': st.just('ack_otherns'), 'args': args}),
+        # the answer to something else that is still outstanding - an
+        # earlier call() that had timed out, an emit with a callback -
+        # arrives while this call() waits
+        st.fixed_dictionaries({'a': st.just('ack_earlier'), 'args': args,
+                               'j': st.integers(0, 5)})),
         max_size=3)
     op = st.one_of(
         st.fixed_dictionaries({'op': st.just('ev'), 'ns': nsi,
@@ -605,6 +610,21 @@ def _run(case, h):
                                              state['id'] + 1000,
                                              list(a['args'])):
                             h.deliver(f)
+                    elif a['a'] == 'ack_earlier':
+                        pool = [(n2, i2) for n2 in nss
+                                for i2 in sorted(outstanding[n2])
+                                if (n2, i2) != (ns, state['id'])]
+                        if pool:
+                            n2, i2 = pool[a['j'] % len(pool)]
+                            kk = outstanding[n2].pop(i2)
+                            used[n2].append(i2)
+                            if kk is not None:
+                                expect_cb.append((kk, list(a['args'])))
+                            for f in wire.frames(wire.ACK, n2, i2,
+                                                 list(a['args'])):
+                                h.deliver(f)
+                            labels['earlier_answer_during_call'] = True
+                            labels['nontrivial'] = True
                     else:
                         others = [n for n in nss if n != ns]
                         if others:
